@@ -178,7 +178,21 @@ func (g *zgen) jsonObj(depth int) string {
 // snippet emits a few lines that display something.
 func (g *zgen) snippet(lines *[]string, usesJSON *bool) {
 	add := func(s string) { *lines = append(*lines, s) }
-	switch g.t.Draw(11) {
+	switch g.t.Draw(12) {
+	case 11: // the same list / dictionary element reachable under two entries (by-reference paths: 写入, a variable used twice in a literal)
+		*usesJSON = true
+		l, d := g.v(), g.v()
+		add(fmt.Sprintf("令%s = %s", l, pick(g.t, []string{"【1，2】", g.dict(0, nil), "【【1】，【“k” = 1】】"})))
+		add(fmt.Sprintf("令%s = 【=】", d))
+		ks := g.keys()
+		for i, k := range ks {
+			if i < 3 {
+				add(fmt.Sprintf("以%s（写入：“%s”、%s）", d, k, l))
+			}
+		}
+		add(fmt.Sprintf("（显示：（生成JSON：%s））", d))
+		add(fmt.Sprintf("（显示：（生成JSON：【“a” = %s，“b” = %s，“c” = 【%s，%s】】））", l, l, l, l))
+		add(fmt.Sprintf("（显示：%s）", d))
 	case 10: // display texts of objects, classes, methods, exceptions: nothing in them may depend on an address
 		cls := "类" + g.v()
 		add(fmt.Sprintf("定义%s：\n\t其名 = “n”\n\n\t如何叫？\n\t\t输出此\n", cls))
